@@ -50,6 +50,9 @@ func runC01(c *core.Ctx) {
 			pre = fibLevelOrder(r.Range(3, 11)) // 4..232 values, maximal height for the size
 		case 1:
 			n := r.Range(40, 400)
+			if r.Chance(1, 6) {
+				n = r.Range(1100, 2600) // beyond 1024 and 2048
+			}
 			for i := 0; i < n; i++ {
 				pre = append(pre, i)
 			}
@@ -59,7 +62,11 @@ func runC01(c *core.Ctx) {
 				}
 			}
 		case 2:
-			for _, i := range r.Perm(r.Range(40, 400)) {
+			n := r.Range(40, 400)
+			if r.Chance(1, 6) {
+				n = r.Range(1100, 2600)
+			}
+			for _, i := range r.Perm(n) {
 				pre = append(pre, i)
 			}
 		}
@@ -499,6 +506,44 @@ func avlCasePre[T comparable](c *core.Ctx, tname string, univ []T, cmp func(a, b
 				return
 			}
 		}
+	}
+	// peak and drain: a tree that has been big is emptied by Remove calls (not Clear)
+	// and then used again - whatever is released or reset on the way down must leave a
+	// working tree
+	if l := live[0]; len(l.model) >= 40 && r.Bool() {
+		peak := len(l.model)
+		order := r.Perm(len(l.model))
+		vals := append([]T{}, l.model...)
+		for k, i := range order {
+			v := vals[i]
+			var ok bool
+			if p, pv := core.Catch(func() { ok = l.t.Remove(v) }); p || !ok {
+				hist = append(hist, fmt.Sprintf("drain: t0.Remove(%v)", v))
+				fail("Remove(present):drain", fmt.Sprintf("draining a tree of %d values: Remove(%v) (number %d) returned %v / panicked: %v", peak, v, k, ok, pv))
+				return
+			}
+			l.model = removeOne(l.model, v)
+			if k%64 == 63 && !checkTree(0, "Remove(present)") {
+				return
+			}
+		}
+		hist = append(hist, fmt.Sprintf("drain: %d Remove calls empty t0", peak))
+		if !checkTree(0, "Remove(present)") {
+			return
+		}
+		for k := 0; k < 5; k++ {
+			v := univ[r.Intn(len(univ))]
+			hist = append(hist, fmt.Sprintf("t0.Add(%v)", v))
+			if p, pv := core.Catch(func() { l.t.Add(v) }); p {
+				fail("Add:panic", fmt.Sprintf("Add(%v) on a drained tree panicked: %v", v, pv))
+				return
+			}
+			l.model = insertSorted(l.model, v)
+			if !checkTree(0, "Add") {
+				return
+			}
+		}
+		c.Count("big_trees_drained_by_remove_then_reused", 1)
 	}
 	if nontrivial {
 		c.NonTrivial(hh)
